@@ -63,7 +63,7 @@ def notify (a : Algo) (l : Nat) (b : Incoming) : Meta :=
   | .binary =>
     match b.block with
     | some k => ⟨b.prev.toList, k⟩
-    | none => ⟨[], l⟩
+    | none => if b.srcLocal then ⟨[], l⟩ else ⟨b.prev.toList, 1⟩
 
 /-! ### SenderForBundle -/
 
